@@ -403,7 +403,7 @@ fn scan_canary(sim: &Sim, who: &str, h: &HeaderMap) {
 }
 
 fn check_bin_on_wire(sim: &Sim, who: &str, entries: &[MdEntry], h: &HeaderMap) {
-    for e in entries.iter().filter(|e| e.bin && !e.reserved) {
+    for e in entries.iter().filter(|e| e.bin && e.expected()) {
         let vals: Vec<&http::HeaderValue> = h.get_all(e.key.as_str()).iter().collect();
         if vals.is_empty() {
             continue; // presence is judged on the receiving side
